@@ -36,6 +36,12 @@ ENDINGS = {
     # name: (text, identifier, marker runs)
     'PASS': (PASS_BODY, 'PASS', True),
     'FAIL': ('[setup]\n% mark-{id}\n[act]\n% atc\n[assert]\nexit-code == 1\n', 'FAIL', True),
+    # a case that uses the output of a program as a text; the program also writes on the other channel: none of that is
+    # part of the report
+    'PASS_chatty': ('[setup]\n% mark-{id}\nfile -rel-tmp c.txt = -stderr-from -ignore-exit-code % chatty\n[act]\n% atc\n'
+                    '[assert]\nexit-code == 0\ncontents -rel-tmp c.txt : equals -stdout-from -ignore-exit-code % chatty2\n', 'PASS', True),
+    'FAIL_chatty': ('[setup]\n% mark-{id}\nfile -rel-tmp c.txt = -stdout-from -ignore-exit-code % chatty\n[act]\n% atc\n'
+                    '[assert]\nexit-code == 1\n', 'FAIL', True),
     'FAIL_run': ('[setup]\n% mark-{id}\n[act]\n% atc\n[assert]\nrun % failing\n', 'FAIL', True),
     'XFAIL': ('[conf]\nstatus = FAIL\n[setup]\n% mark-{id}\n[act]\n% atc\n[assert]\nexit-code == 1\n', 'XFAIL', True),
     'XPASS': ('[conf]\nstatus = FAIL\n' + PASS_BODY, 'XPASS', True),
@@ -440,7 +446,9 @@ def execute(plan, scratch):
                 'kind': 'raise_exc' if c['ending'] == 'CONF_INTERNAL_ERROR' else 'svh_hard'}
                for s in plan['hierarchy'].values() for c in s['cases'] if c['ending'] in ('CONF_INTERNAL_ERROR', 'CONF_HARD_ERROR')]
     procs = {'atc': {'exit': 0}, 'failing': {'exit': 3, 'stderr': 'boom\n'}, 'stall': {'duration': 'inf'},
-             'nostart': {'spawn_error': 'ENOENT'}, 'pp': {'exit': 0, 'cat_last_arg_file': True}}
+             'nostart': {'spawn_error': 'ENOENT'}, 'pp': {'exit': 0, 'cat_last_arg_file': True},
+             'chatty': {'exit': 2, 'stdout': 'chatty: written on stdout\n', 'stderr': 'same text\n'},
+             'chatty2': {'exit': 1, 'stdout': 'same text\n', 'stderr': 'chatty2: written on stderr\n'}}
     for s_ in plan['hierarchy'].values():
         for c in s_['cases']:
             if c['ending'] == 'FLAKY':
